@@ -120,8 +120,20 @@ def av1_delta(rng):
     return bytes([0x32]) + leb128(len(body)) + body
 
 
-def vp9_key(rng, w=100, h=100, cc=0x12):
-    return bytes([0x49, 0x83, 0x42, 0x00, 0x80]) + leb128(w) + leb128(h) + bytes([cc]) + nal_body(rng, rng.randrange(2, 20))
+def vp9_key(rng, w=None, h=None, cc=None, profile=None):
+    """a key frame in the layout the library reads: marker, profile in the top bits of byte 3, one more byte for
+    profiles 2 and 3, width and height as var-uints, then the byte carrying bit depth (bit 0), colour space, transfer
+    and matrix bits.  All of them vary unless given."""
+    if w is None:
+        w = rng.choice([100, 100, 16, 640, 1920, 127, 128, 16383, 16384])
+    if h is None:
+        h = rng.choice([100, 100, 16, 480, 1080, 129])
+    if cc is None:
+        cc = rng.choice([0x12, 0x12, rng.randrange(256) & 0xF3, (rng.randrange(256) & 0xF2) | 1])     # bits 2-3 clear: no separate render size
+    if profile is None:
+        profile = rng.choice([0, 0, 0, 1, 2, 2, 3])
+    head = bytes([0x49, 0x83, 0x42, (profile & 3) << 6, 0x80]) + (bytes([rng.randrange(256)]) if profile >= 2 else b"")
+    return head + leb128(w) + leb128(h) + bytes([cc]) + nal_body(rng, rng.randrange(2, 20))
 
 
 def vp9_delta(rng):
@@ -559,6 +571,14 @@ def gen_C14(rng, tier, dist):
             d = bytes(rng.choice(alphabet) for _ in range(rng.randrange(0, 40)))
         cases.append("X %s %s" % (rng.choice(["annexb_to_avcc", "hevc_annexb_to_hvcc"]), hx(d)))
         dist["join_nals=%d" % k] += 1
+    # token-level strings: the scanner's interesting substrings (zero runs, both start codes, the emulation-prevention
+    # pattern 00 00 03, 00 00 02, lone 01 / 03) spliced in every order - e.g. a unit ending in escaped zeros right
+    # before a start code, which byte-level enumeration only reaches at length 7
+    toks = [b"\x00", b"\x00\x00", SC3, SC4, b"\x00\x00\x03", b"\x00\x00\x02", b"\x01", b"\x03", b"\x65", b"\x4a\x01", b"\xff"]
+    for _ in range(600 if tier == "quick" else 30000):
+        d = b"".join(rng.choice(toks) for _ in range(rng.randrange(1, 9)))
+        cases.append("X %s %s" % (rng.choice(["annexb_to_avcc", "hevc_annexb_to_hvcc"]), hx(d)))
+    dist["token_spliced_strings"] += 600 if tier == "quick" else 30000
     # ADTS through the muxer: keyframe, audio frames, finish
     na = 300 if tier == "quick" else 6000
     for i in range(na):
